@@ -5,7 +5,7 @@ from .. import proofgate, composer
 from .. import jubjub as J
 from .c12 import rederive_points
 
-THEOREMS = ["C13_torsion_emits", "C13_torsion_sound", "C13_torsion_point_on_curve", "C13_torsion_complete"]
+THEOREMS = ["C13_torsion_emits", "C13_torsion_sound", "C13_torsion_point_on_curve", "C13_torsion_complete", "C13_torsion_in_system"]
 FIRST = 6
 EIGHT_INV = 0x01cfb69d4ca675f520cce7602026876014cd0412799902105a12e1cbdadee597
 
